@@ -231,8 +231,15 @@ func (b BatchSpec) stored(f FileSpec) OptSpec {
 	return OptSpec{Nil: true}
 }
 
+// shortPrefix marks a trace number stored as the bare sequence number ("1001", not 15 characters): the
+// written field is zero-padded, the string the merge code keys and compares is not.
+const shortPrefix = "~"
+
 func traceOf(b BatchSpec, e EntrySpec) string {
 	p := e.Prefix
+	if p == shortPrefix {
+		return strconv.Itoa(e.Seq)
+	}
 	if p == "" {
 		p = b.ODFI
 	}
@@ -628,11 +635,15 @@ func genCase(r *rng.R) Case {
 					ks[a], ks[b] = ks[b], ks[a]
 				}
 			}
+			short := foreign && !h.Raw && r.Chance(1, 3) // the whole batch numbers its entries "7", "12", ... (valid under the same options)
 			for _, k := range ks {
 				e := EntrySpec{Seq: k, ID: nextID, Amount: r.Range(1, 300)}
 				nextID++
 				if foreign && (h.Raw || r.Chance(3, 4)) {
 					e.Prefix = foreignPrefix
+				}
+				if short {
+					e.Prefix = shortPrefix
 				}
 				if h.Raw && r.Chance(1, 3) {
 					e.Prefix = "" // a raw batch may mix native and foreign entries
